@@ -43,7 +43,9 @@ GENERATORS = [
     ('gen_py_combinators', 'PyCombinators.lean'),
     ('gen_py_handlers', 'PyHandlers.lean'),
     ('gen_py_popen', 'PyPseudoOpen.lean'),
+    ('gen_py_pcustom', 'PyPseudoCustom.lean'),
     ('gen_py_attrs', 'PyAttrs.lean'),
+    ('gen_py_relations', 'PyRelations.lean'),
 ]
 
 
